@@ -201,9 +201,6 @@ var perturbations = []perturbation{
 		}
 		d := cloneCase(c)
 		d.Ctx.Multi = true
-		if len(d.Ctx.Singles) == 1 && d.Ctx.Singles[0].Secondary != nil {
-			return nil, false // the legacy user schema (secondary key) cannot be part of a multi-kind context
-		}
 		d.Ctx.Singles = append(append([]SingleSpec{}, d.Ctx.Singles...), SingleSpec{Kind: "zzkind", Key: "a", Attrs: []KV{{"email", JStr("alice@x.com")}}})
 		return d, true
 	}},
